@@ -4,7 +4,7 @@
    (Model/UrlEscape.v unescape, parse_query) as exactly the request the
    parameter-level theorem C09_params_agree is about. *)
 From Coq Require Import String.
-From Coq Require Import List Bool Arith Ascii NArith ZArith Lia.
+From Coq Require Import List Bool Arith Ascii NArith ZArith Lia Permutation.
 Import ListNotations.
 From Goag Require Import Base.Str Model.Router Model.Serve Model.Params Model.Json Model.UrlEscape Model.Client
      Proofs.UrlEscapeProofs.
@@ -99,3 +99,17 @@ Proof. intros q name. rewrite query_roundtrip. apply vals_sort. Qed.
 
 Lemma query_values_vals rq name : query_values rq name = vals name (q_query rq).
 Proof. reflexivity. Qed.
+
+(* url.Values.Encode's ordering of the pairs loses and invents nothing *)
+Lemma insert_pair_perm x : forall l, Permutation (insert_pair x l) (x :: l).
+Proof.
+  induction l as [|y r IH]; [reflexivity|].
+  cbn [insert_pair]. destruct (str_leb (fst x) (fst y)); [reflexivity|].
+  rewrite IH. apply perm_swap.
+Qed.
+
+Theorem sort_pairs_perm : forall l, Permutation (sort_pairs l) l.
+Proof.
+  induction l as [|x l IH]; [reflexivity|].
+  cbn [sort_pairs fold_right]. fold (sort_pairs l). rewrite insert_pair_perm. now constructor.
+Qed.
